@@ -595,9 +595,22 @@ func (e *Engine) fmtArg(verb byte, a Value, g *Term, pos token.Pos) StringV {
 							panic(r)
 						}
 					}()
+					nOb := len(e.obligs)
 					r, rg := e.callFn(fn, []Value{al.val}, nil, g, pos)
+					// fmt recovers a panicking String()/Error() method and prints a PANIC marker instead:
+					// panics inside this call are not failures of the code under test
+					kept := e.obligs[:nOb]
+					for _, o := range e.obligs[nOb:] {
+						if o.kind != "panic" {
+							kept = append(kept, o)
+						}
+					}
+					e.obligs = kept
 					if rg == False || r == nil {
 						return false
+					}
+					if sv, isStr := r.(StringV); isStr && rg != True {
+						r = iteVal(rg, sv, constStr("<?>"))
 					}
 					res = r
 					return true
